@@ -138,6 +138,9 @@ func tokOf(words []aWord) (tok token.Token, at int) {
 }
 
 func isFuncDecl(words []aWord) bool {
+	for len(words) > 0 && words[0].tok == token.COMMENT { // func /* c */ (
+		words = words[1:]
+	}
 	if startWith(words, token.LPAREN) { // func (
 		words = seekAfter(words[1:], token.RPAREN, token.LPAREN) // func (...)
 		if startWith(words, token.LBRACE) {                      // func (...) {
